@@ -350,3 +350,147 @@ Proof. unfold new_hash. intros ->. reflexivity. Qed.
 
 Lemma new_hash_len ns ins : (length (new_hash ns ins) <= 16)%nat.
 Proof. unfold new_hash. apply firstn_le_length. Qed.
+
+(* ---------- the language Parse accepts ----------------------------------- *)
+Lemma to_bytes_len_small fuel n : n < 2 ^ 128 -> (length (to_bytes_be fuel n) <= 16)%nat.
+Proof.
+  intros Hn. unfold to_bytes_be. rewrite rev_length.
+  destruct (Nat.le_gt_cases 16 fuel) as [H|H].
+  - rewrite (to_digits_fuel 256 16) by (try lia; destruct pow_facts as [E _]; change (N.of_nat 16) with 16; lia).
+    apply to_digits_len.
+  - pose proof (to_digits_len 256 fuel n). lia.
+Qed.
+
+(* Parse accepts exactly: an optional sign, then one or more base62 digits, of magnitude < 2^128 —
+   any length, any number of leading zeros; the sign is dropped *)
+Lemma parse_accepts_iff s :
+  (exists bs, parse s = Ok bs) <-> (exists n, parse_value s = Some n /\ n < 2 ^ 128).
+Proof.
+  split.
+  - intros [bs Hp]. unfold parse in Hp. destruct (parse_value s) as [n|] eqn:Hv; [|discriminate].
+    exists n. split; [reflexivity|]. destruct (N.lt_ge_cases n (2 ^ 128)) as [H|H]; [exact H|].
+    pose proof (parse_rejects_big s n Hv H) as He. unfold parse in He. rewrite Hv in He. cbv zeta in *.
+    destruct (Nat.ltb 16 _); [discriminate|]. discriminate.
+  - intros [n [Hv Hn]]. unfold parse. rewrite Hv. cbv zeta.
+    pose proof (to_bytes_len_small (length s + 1) n Hn) as Hl.
+    replace (Nat.ltb 16 _) with false by (symmetry; apply Nat.ltb_ge; exact Hl). eauto.
+Qed.
+
+Lemma digit_val_inv c d : digit_val c = Some d -> c = alphabet d /\ d < 62.
+Proof.
+  unfold digit_val, alphabet.
+  destruct ((48 <=? c) && (c <=? 57)) eqn:E1; [intros [= <-]; replace (c - 48 <? 10) with true by lia; lia|].
+  destruct ((97 <=? c) && (c <=? 122)) eqn:E2;
+    [intros [= <-]; replace (c - 97 + 10 <? 10) with false by lia; replace (c - 97 + 10 <? 36) with true by lia; lia|].
+  destruct ((65 <=? c) && (c <=? 90)) eqn:E3; [|discriminate].
+  intros [= <-]. replace (c - 65 + 36 <? 10) with false by lia. replace (c - 65 + 36 <? 36) with false by lia. lia.
+Qed.
+
+Lemma digits_val_inv s : forall ds, digits_val s = Some ds -> s = map alphabet ds.
+Proof.
+  induction s as [|c r IH]; intros ds; cbn [digits_val].
+  - intros [= <-]. reflexivity.
+  - destruct (digit_val c) as [d|] eqn:Ed; [|discriminate].
+    destruct (digits_val r) as [dr|]; [|discriminate]. intros [= <-].
+    cbn [map]. f_equal; [apply (digit_val_inv c d Ed)|apply IH; reflexivity].
+Qed.
+
+Lemma class_not_sign c : in_class id62_class c = true -> c <> 43 /\ c <> 45.
+Proof. unfold in_class, id62_class. cbn [existsb fst snd]. lia. Qed.
+
+(* a string of the published shape: its digits *)
+Lemma shaped_digits s n : matches (id62_class, 22) s = true -> parse_value s = Some n ->
+  exists ds, digits_val s = Some ds /\ length ds = 22%nat /\ Forall (fun d => d < 62) ds /\ of_digits_be 62 0 ds = n.
+Proof.
+  unfold matches. cbn [fst snd]. intros Hm Hv. apply andb_true_iff in Hm. destruct Hm as [Hl Hc].
+  apply N.eqb_eq in Hl. assert (Hlen : length s = 22%nat) by lia.
+  unfold parse_value in Hv. rewrite strip_sign_noop in Hv.
+  - destruct s as [|c r] eqn:Es; [discriminate|]. rewrite <- Es in *.
+    destruct (digits_val s) as [ds|] eqn:Ed; [|destruct s; discriminate].
+    assert (Some (of_digits_be 62 0 ds) = Some n) as E by (destruct s; [discriminate|exact Hv]).
+    injection E as E. destruct (digits_val_len _ _ Ed) as [H1 H2].
+    exists ds. repeat split; try assumption. lia.
+  - intro E. rewrite E in Hlen. discriminate.
+  - intros c Hin. apply class_not_sign. rewrite forallb_forall in Hc. auto.
+Qed.
+
+(* on strings of the published shape Parse is the exact inverse of String: the only such string
+   that parses to an identifier is its rendering (so Parse is injective there) *)
+Lemma parse_shaped_inverse s bs : matches (id62_class, 22) s = true -> parse s = Ok bs -> render bs = Ok s.
+Proof.
+  intros Hm Hp. destruct (parse_ok_shape s bs Hp) as [Hl Hb]. assert (Hwf : wf_id bs) by (split; assumption).
+  destruct (render_no_panic bs Hwf) as [s' Hr]. rewrite Hr. f_equal.
+  assert (Hv : parse_value s = Some (of_bytes_be bs)).
+  { unfold parse in Hp. destruct (parse_value s) as [n|] eqn:Hv; [|discriminate].
+    f_equal. symmetry. apply (parse_value_exact s n bs Hv). unfold parse. rewrite Hv. exact Hp. }
+  pose proof (parse_value_render bs s' Hwf Hr) as Hv'.
+  assert (Hm' : matches (id62_class, 22) s' = true).
+  { destruct (render_matches bs s' Hwf Hr) as [p [Hpp Hmm]]. rewrite pattern_parsed in Hpp. injection Hpp as <-. exact Hmm. }
+  destruct (shaped_digits s _ Hm Hv) as (ds & Hd & Hn & Hf & He).
+  destruct (shaped_digits s' _ Hm' Hv') as (ds' & Hd' & Hn' & Hf' & He').
+  rewrite (digits_val_inv s ds Hd), (digits_val_inv s' ds' Hd'). f_equal.
+  rewrite <- (rev_involutive ds), <- (rev_involutive ds'). f_equal.
+  apply (of_digits_le_inj 62); [lia| | | |].
+  - rewrite !rev_length. lia.
+  - apply Forall_rev. exact Hf'.
+  - apply Forall_rev. exact Hf.
+  - rewrite <- !be_as_le. congruence.
+Qed.
+
+(* Parse is not a validator of the published pattern: signs, short strings and over-long strings
+   with leading zeros are accepted *)
+Lemma parse_not_a_validator :
+  let id1 := repeat 0 15 ++ [1] in
+  parse [45; 49] = Ok id1 /\ parse [43; 49] = Ok id1 /\ parse [49] = Ok id1 /\
+  parse (repeat 48 40 ++ [49]) = Ok id1 /\
+  matches (id62_class, 22) [45; 49] = false /\ matches (id62_class, 22) (repeat 48 40 ++ [49]) = false /\
+  render id1 = Ok (repeat 48 21 ++ [49]).
+Proof. vm_compute. repeat split. Qed.
+
+(* ---------- NewHash: no package state ------------------------------------- *)
+Lemma new_hash_seq_spec st cs :
+  new_hash_seq st cs = (st, map (fun c => new_hash (fst c) (snd c)) cs).
+Proof.
+  induction cs as [|c r IH]; cbn [new_hash_seq map]; [reflexivity|].
+  unfold new_hash_step. rewrite IH. reflexivity.
+Qed.
+
+(* the tie: NewHash, and the functions of package id62 it calls, touch no package-level variable and
+   start no goroutine; what it calls is the digest it creates itself *)
+Lemma newhash_is_stateless :
+  Id62Gen.newhash_state_refs = [] /\
+  Id62Gen.newhash_calls = ["call:sha1.New"; "call:h.Reset"; "call:h.Write"; "call:h.Write"; "call:h.Sum"; "call:copy"]%string.
+Proof. vm_compute. repeat split. Qed.
+
+(* ---------- the compiler and the reader use the published pattern ---------- *)
+(* both refer to id62.PatternString (at least once each) and neither has a private copy of the text *)
+Definition pattern_single_source : bool :=
+  (1 <=? Id62Gen.writer_refs) && (1 <=? Id62Gen.reader_refs) && (Id62Gen.literal_copies =? 0).
+
+Lemma pattern_single_source_ok : pattern_single_source = true.
+Proof. vm_compute. reflexivity. Qed.
+
+Lemma nlist_eqb_eq a : forall b, Corr.nlist_eqb a b = true -> a = b.
+Proof.
+  unfold Corr.nlist_eqb. induction a as [|x r IH]; intros [|y s]; cbn; intros H; try discriminate; [reflexivity|].
+  apply andb_true_iff in H. destruct H as [H1 H2]. apply N.eqb_eq in H1. subst. f_equal. apply IH. exact H2.
+Qed.
+
+(* the reader's table maps the published pattern, and nothing else, to the id62 format *)
+Lemma reader_recognises_published :
+  reads_back_as Id62Gen.reader_patterns Id62Gen.reader_id62_format Id62Gen.pattern_string = true.
+Proof. vm_compute. reflexivity. Qed.
+
+Lemma reader_only_published pat :
+  reads_back_as Id62Gen.reader_patterns Id62Gen.reader_id62_format pat = true -> pat = Id62Gen.pattern_string.
+Proof.
+  assert (G : forall tab, forallb (fun e => negb (Corr.nlist_eqb (snd e) Id62Gen.reader_id62_format)
+                                            || Corr.nlist_eqb (fst e) Id62Gen.pattern_string) tab = true ->
+              reads_back_as tab Id62Gen.reader_id62_format pat = true -> pat = Id62Gen.pattern_string).
+  { induction tab as [|[k f] r IH]; unfold reads_back_as; cbn [recognise forallb fst snd]; intros Ht H; [discriminate|].
+    apply andb_true_iff in Ht. destruct Ht as [H1 H2].
+    destruct (Corr.nlist_eqb k pat) eqn:Ek.
+    - rewrite H in H1. cbn in H1. apply nlist_eqb_eq in Ek. apply nlist_eqb_eq in H1. congruence.
+    - apply IH; assumption. }
+  apply G. vm_compute. reflexivity.
+Qed.
